@@ -161,8 +161,10 @@ func runIndexerImpl(p *IndexerPlan) error {
 	}
 	res.Indexed = idx.seen()
 	res.InOrder = true
+	// (with an empty index the service starts at the latest height it knows when OnStart reads it: heights that
+	// arrived before that moment are legitimately not indexed; from there on every height once, in order)
 	for i, h := range res.Indexed {
-		if h != int64(i+1) {
+		if h != res.Indexed[0]+int64(i) {
 			res.InOrder = false
 		}
 	}
